@@ -143,4 +143,5 @@ def run(ctx):
         for law in laws:
             ctx.violation('C02|%s|%s|%s' % (cfg, law, '+'.join(sorted(set(rel.split(','))))),
                           'correlation of a %s-column table (%s) with %s marginals violates %s' % (n, rel, cfg, law), dict(o, rerun=['harness.props.C02._observe', list(jobs[i])]))
+    ctx.traces += len(obs)          # observation tables / samples of the real code judged by TLC
     ctx.exhaustive = False
